@@ -306,7 +306,21 @@ func addLTCase(ctx *Ctx, db *laptimer.DB, inDomain bool, kind string) {
 
 var textAlphabet = []string{"a", "b", "Z", "0", " ", "\"", "'", "&", "<", ">", "\t", "\n", "\r", "é", "€", "—", "😀", "]]>", "&#xA;", "&amp;", "ü", ",", ".", "%"}
 
+// genLongText: several kilobytes dense in characters that are written as entities first, so
+// that entity spellings straddle whatever buffer boundaries the encoder's filter has.
+func genLongText(r *Rng) string {
+	var sb strings.Builder
+	n := 1500 + r.Intn(2500)
+	for i := 0; i < n; i++ {
+		sb.WriteString(Pick(r, []string{"\t", "\n", "\"", "'", "\t", "\n", "a", "xy"}))
+	}
+	return sb.String()
+}
+
 func genText(r *Rng, domain bool, noComma, token bool) string {
+	if !noComma && !token && r.Chance(0.03) {
+		return genLongText(r)
+	}
 	n := r.Intn(8)
 	if r.Chance(0.1) {
 		n = 20 + r.Intn(40)
